@@ -298,13 +298,31 @@ def check_inclusive(ctx, out, rule="C02.incl"):
     out.inst(rule, n, 2, ["RangeInclusive -> `start <= end_col`", "Range -> `start < end_col`"], exhaustive=True)
 
 
+def parser_call_sites(ctx, fp):
+    """Call sites of the file parser, read in the normalised view of the function(s) that (through
+    closures and helpers) call it: [(view, block, call)]."""
+    tops = []
+    for b in ctx.reachable_bodies():
+        if any((t.get("res") or "") == fp.id for bi, t in b.calls()):
+            top = b
+            while top.kind == "Closure" and top.parent and ctx.facts.body(top.parent) is not None:
+                top = ctx.facts.body(top.parent)
+            if top.id not in [x.id for x in tops]:
+                tops.append(top)
+    # helpers of the binary's / library's driver that only forward to it are looked through as well
+    sites = []
+    for top in tops:
+        v = ctx.inl(top, skip=lambda cb: ctx.domain_api(cb) or cb.id == fp.id, tag="parser-sites", sugar=True) if not top.coroutine else top
+        reach = cfg_of(v).reachable
+        for bi, t in v.calls():
+            if (t.get("res") or "") == fp.id and bi in reach:
+                sites.append((v, bi, t))
+    return sites
+
+
 def check_mode(ctx, out, fp):
     n = 0
-    callers = []
-    for b in ctx.reachable_bodies():
-        for bi, t in b.calls():
-            if (t.get("res") or "") == fp.id:
-                callers.append((b, bi, t))
+    callers = parser_call_sites(ctx, fp)
     if len(callers) != 2:
         out.viol("C02.mode", "C02.mode|sites", "-", "expected two call sites of the file parser (walk and diff-only), found %d" % len(callers))
     for b, bi, t in callers:
